@@ -3,6 +3,7 @@ package props
 
 import (
 	"go/types"
+	"golang.org/x/tools/go/ssa"
 
 	"sidecheck/core"
 )
@@ -19,6 +20,8 @@ type Run struct {
 	nilableCache               map[*types.Var]bool
 	mayNilMemo                 map[string]int
 	chunkCondDone, chunkCondOK bool
+	nilResultCache             map[*ssa.Function]int
+	producerMemo               map[*types.Var]int
 }
 
 // Checker decides one property on one loaded configuration.
